@@ -3,8 +3,8 @@ from props import seqcases
 
 LEVEL = "other"
 TRUSTED = []
-LEVEL_TEXT = "DFCC contract proofs over the full value range for Int_Cmp, Float_Cmp (NaN excluded), String_Cmp, Type_Cmp and the six predicates; harness proofs through the real dispatch for Int, Float and plain structs; container cmp (Array, List, Tuple) as bounded lexicographic checks (length <= 3). The scalar part is proof-level, the container part bounded, hence 'other'."
-NOTE = 'libc strcmp assumed to be the unsigned-byte lexicographic order; Tree/Table cmp not yet under contract'
+LEVEL_TEXT = "DFCC contract proofs over the full value range for Int_Cmp, Float_Cmp (NaN excluded), String_Cmp, Type_Cmp and the six predicates; harness proofs through the real dispatch for Int, Float and plain structs (byte-wise, TypeError for different types); Array, List and Tuple cmp as bounded lexicographic checks (lengths <= 3/4). The scalar part is proof-level, the container part bounded, hence 'other'."
+NOTE = 'libc strcmp assumed to be the unsigned-byte lexicographic order; Tree/Table cmp not under contract'
 TECHNIQUE = "CBMC code contracts (DFCC) on the real Int_Cmp/Float_Cmp/predicates"
 
 EXPLANATION = LEVEL_TEXT
